@@ -12,6 +12,7 @@ import Psa.Driver.JsonIO
 import Psa.Driver.DispatchIO
 import Psa.Driver.GatesIO
 import Psa.Driver.EvIO
+import Psa.Driver.EncIO
 namespace Psa.Driver
 open Psa
 
@@ -77,6 +78,11 @@ def runLine (l : String) : String :=
       | "ev" => opEv args
       | "tamper" => opTamper args
       | "envelope" => opEnvelope args
+      | "ser" => opSer args
+      | "hdr" => opHdr args
+      | "synth" => opSynth args
+      | "pop" => opPop args
+      | "omap" => opOmap args
       | "dispatch-cbor" => opDispatchCbor args
       | "dispatch-json" => opDispatchJson args
       | _ => "bad-op"
